@@ -331,6 +331,21 @@ def add_drive(r, case, p=0.6, plot_p=0.1):
     stamps = [t for tr in case["trajs"] + ([case["ref"]] if case["ref"] else []) for t in tr["stamps"]]
     if r.random() < 0.04 and case["sub"] != "kitti" and stamps and min(stamps) + min(case["t_offset"], 0.0) > 1.0:
         extra.append("--save_as_bag")       # ROS time cannot hold negative stamps
+    if case.get("ties") and case.get("merge"):
+        # merged inputs that share timestamps: evo's speed statistics (--save_table, the speed plot) refuse duplicate stamps
+        # ("bad timestamps"); these options are outside the property, so they are not combined with such inputs
+        drop = {"--save_table": 2, "--save_plot": 2, "--serialize_plot": 2, "--plot": 1, "--full_check": 1}
+        out_, i_ = [], 0
+        while i_ < len(extra):
+            if extra[i_] in drop:
+                i_ += drop[extra[i_]]
+            else:
+                out_.append(extra[i_])
+                i_ += 1
+        extra = [x for x in out_ if x not in ("--plot_relative_time",)]
+        if "--plot_mode" in extra:
+            j_ = extra.index("--plot_mode")
+            del extra[j_:j_ + 2]
     d["extra"] = extra
     case["drive"] = d
     return case
